@@ -127,7 +127,7 @@ PROPS["C06"] = dict(
         "c06_register_two_descriptors_new_then_known": dict(cap=2400),
         "c06_register_two_descriptors_other_shapes": dict(cap=3600, tier="thorough"),
         "c06_unregister_live_collector_step": dict(cap=3600, tier="thorough"),
-        "c06_unregister_unknown_collector_step": dict(cap=3600),
+        "c06_unregister_unknown_collector_step": dict(cap=3600, tier="thorough"),
         "c06_same_collector_twice_and_gather": dict(cap=5400, tier="thorough"),
     },
     functions=["RegistryCore::register", "RegistryCore::unregister", "RegistryCore::gather"],
